@@ -13,7 +13,11 @@ from vlib.core.ctx import CaseTimeout, Ctx, case_rng
 from vlib.core.registry import module_for
 
 
+_FIRED = [False]
+
+
 def _alarm(signum, frame):
+    _FIRED[0] = True
     raise CaseTimeout()
 
 
@@ -35,10 +39,20 @@ def run(pid, tier, seed, shard, nshards, workdir, budget_s, out,
             break
         ctx.cur_case = i
         rng = case_rng(seed, pid, tier, i)
+        _FIRED[0] = False
+        nviol = len(ctx.violations)
+        vpk = dict(ctx._vio_per_key)
         signal.alarm(case_timeout)
         try:
             mod.run_case(ctx, i, rng)
+            if _FIRED[0]:
+                # the watchdog fired but its exception was swallowed by the
+                # code under test (the run went on, disturbed): what the
+                # case reported is not a verdict
+                raise CaseTimeout()
         except CaseTimeout:
+            del ctx.violations[nviol:]
+            ctx._vio_per_key = vpk
             ctx.timeouts += 1
             if hasattr(mod, 'on_timeout'):
                 mod.on_timeout(ctx, i)
